@@ -19,6 +19,7 @@ import (
 	"math/rand"
 	"os"
 	"path/filepath"
+	"regexp"
 	"runtime"
 	"runtime/debug"
 	"sort"
@@ -419,7 +420,22 @@ type ictx struct {
 
 func (c *ictx) stat(s string) { c.res.stats = append(c.res.stats, s) }
 
+var (
+	numRe   = regexp.MustCompile(`[0-9]+`)
+	quoteRe = regexp.MustCompile("\"(\\\\.|[^\"\\\\])*\"|`[^`]*`")
+)
+
 func (c *ictx) diff(method, impl, model, class string) {
+	// distribution of the kinds of diffs (the report keeps only the first 25 diffs)
+	k := impl
+	if i := strings.IndexByte(k, '\n'); i >= 0 {
+		k = k[:i]
+	}
+	k = numRe.ReplaceAllString(quoteRe.ReplaceAllString(k, "Q"), "N")
+	if class != "" {
+		k = class
+	}
+	c.stat("diff:" + method + ": " + short(k, 120))
 	c.res.diffs = append(c.res.diffs, vh.Diff{Component: component, Input: c.dump + " method=" + method, Impl: impl, Model: model, Class: class})
 }
 
@@ -729,11 +745,11 @@ func runIter(it int64, cfg *config, w *worker) *result {
 	for i, t := range in.types {
 		ts := newSchema(&in, t.name, t.text)
 		if in.nested && i == 0 {
+			c.call("type.AddRule", func() error { return ts.AddRule(in.enumName, e) })
 			for _, u := range in.types[1:] {
 				us := newSchema(&in, u.name, u.text)
 				c.call("type.AddType", func() error { return ts.AddType(u.name, us) })
 			}
-			c.call("type.AddRule", func() error { return ts.AddRule(in.enumName, e) })
 		}
 		c.call("schema.AddType", func() error { return s.AddType(t.name, ts) })
 		if in.dupType && i == 0 {
@@ -791,8 +807,8 @@ func runIter(it int64, cfg *config, w *worker) *result {
 		c.call("schema.AddRule(late)", func() error { return s.AddRule("@late", e) })
 		c.call("schema.AddRule(nil)", func() error { return s.AddRule("@nil", nil) })
 		c.call("schema.AddType(nil)", func() error { return s.AddType("@nil", nil) })
-		c.call("schema.AddType(late)", func() error { return s.AddType("@late", jschema.New("@late", in.root)) })
 		c.src["@late"] = len(in.root)
+		c.call("schema.AddType(late)", func() error { return s.AddType("@late", jschema.New("@late", in.root)) })
 		c.call("schema.Validate(foreign)", func() error { return s.Validate(foreignDoc{newDoc(&in, "doc", in.doc)}) })
 		c.call("schema.Validate(nil)", func() error { return s.Validate(nil) })
 		c.call("schema.Validate(again)", func() error { return s.Validate(newDoc(&in, "doc", in.doc)) })
@@ -854,6 +870,7 @@ func Run(args []string) {
 	n := int64(vh.Pick(20000, 1200000))
 	src := "/repo"
 	replay := int64(-1)
+	show, shown := "", 0
 	for _, a := range args {
 		switch {
 		case strings.HasPrefix(a, "iter="):
@@ -862,6 +879,8 @@ func Run(args []string) {
 			n, _ = strconv.ParseInt(a[2:], 10, 64)
 		case strings.HasPrefix(a, "src="):
 			src = a[4:]
+		case strings.HasPrefix(a, "show="): // log up to 5 diffs whose Impl contains the text
+			show = a[5:]
 		}
 	}
 	budget := time.Duration(vh.Pick(25, 540)) * time.Second
@@ -923,6 +942,10 @@ func Run(args []string) {
 		}
 		for _, d := range res.diffs {
 			rep.AddDiff(d)
+			if show != "" && shown < 5 && strings.Contains(d.Impl, show) {
+				shown++
+				fmt.Printf("SHOW %s\n  impl=%s\n", d.Input, d.Impl)
+			}
 		}
 		calls += int64(res.calls)
 		errs += int64(res.errs)
